@@ -15,8 +15,9 @@ EVERY slice key with start, stop in labels ∪ {None, an absent label} and step 
     end) in steps of `step`, in that order; an endpoint that is not held raises LocInvalid.
     Outside the oracle (documented in Props/C05.lean, `stepped_empty_leaf_counterexample`): an EMPTY index at
     offset 0 under a negative step with an open start (start = offset + 0 - 1 = -1 counts from the end).
-    Cases with 'npstep' repeat the slices with np.int64 steps (generated functions: key_step_is_int = false): the
-    translation must still agree with the real code; the oracle failures there are finding F90 (classified by C02).
+    Cases with 'npstep' repeat the slices with np.int64 steps (the generated functions read a step by its integer
+    value, whatever its class): same comparisons, same strict oracle (finding F90 - a negative np.integer step lost the
+    stop label - is repaired in /repo commit b8dc316).
 The same for the other two translated branches of `LocMap.loc_to_iloc`: every single label (held or absent) as an
 element key (ops `locmap.elem`, `locmap.handkey`), and every Python list of length <= 2 over labels + absent (and a few
 of length 3, with repeats) as a list key, with and without `partial_selection` (ops `locmap.list`, `locmap.handkey`);
@@ -44,7 +45,7 @@ STEPS_THOROUGH = [None, 1, 2, 3, -1, -2, -3]
 def make(kind, n, off, steps, npstep=False):
     c = {'k': K, 'pool': kind, 'n': n, 'off': off, 'steps': list(steps)}
     if npstep:
-        c['npstep'] = True       # the steps are np.int64 (class is not exactly int): finding F90 for the negative ones
+        c['npstep'] = True       # the steps are np.int64 (class is not exactly int): repaired finding F90, strict oracle
     return c
 
 
@@ -103,10 +104,9 @@ def model_lines(c):
     ls = '(' + ' '.join(f'L{i}' for i in range(c['n'])) + ')'
     off = w_int(c['off'])
     lines = []
-    isint = 0 if c.get('npstep') else 1
     for a, b, st in keys_of(c):
         args = f'{ls} {w_lab(a)} {w_lab(b)} {w_int(st)}'
-        lines += [f'locmap.slice {args} {isint} {off}', f'locmap.args {args} {isint} {off}', f'locmap.hand {args} {off}']
+        lines += [f'locmap.slice {args} {off}', f'locmap.args {args} {off}', f'locmap.hand {args} {off}']
     if c.get('npstep'):
         return lines
     for a in elem_keys_of(c):
@@ -190,7 +190,7 @@ def evaluate(ctx, c, outs):
             if g_args != real_args:
                 fails.append(Failure('corr', f'translated LocMap.map_slice_args differs from the real generator: {desc}: generated {g_args} vs real {real_args}', c))
             hand_real = real.replace('err LocInvalid', 'err lookup')
-            if hand != hand_real and not npstep:       # the hand model reads every step as a Python int
+            if hand != hand_real:
                 fails.append(Failure('corr', f'hand-mirrored Index.locMap differs from the real LocMap.loc_to_iloc: {desc}: model {hand} vs real {hand_real}', c))
         # ---- oracle: stop-inclusive in the direction of the step, inside the index
         if a == -1 or b == -1:
